@@ -509,7 +509,7 @@ func famEval() {
 		var vs []ConfOpts
 		switch prop {
 		case "C01":
-			vs = []ConfOpts{{Mask: 0}, {Mask: 0, Undefined: true}, {Mask: 0, How: "dir"}}
+			vs = []ConfOpts{{Mask: 0}, {Mask: 0, Undefined: true}, {Mask: 0, How: "dir"}, {Mask: 0, How: "api", Spell: r.Intn(8), Undefined: r.Intn(3) == 0}}
 		case "C02":
 			for mk := 0; mk < 16; mk++ {
 				vs = append(vs, ConfOpts{Mask: mk})
@@ -521,6 +521,8 @@ func famEval() {
 			}
 			vs = append(vs, ConfOpts{How: "dirx", Spell: r.Intn(1 << 20)}, ConfOpts{How: "dirx", Spell: r.Intn(1 << 20)})
 			vs = append(vs, ConfOpts{Mask: r.Intn(16), How: "tail", Spell: r.Intn(2)}, ConfOpts{Mask: r.Intn(16), How: "tail", Spell: r.Intn(2)})
+			// the same subsets through the library's Option constructors
+			vs = append(vs, ConfOpts{Mask: r.Intn(16), How: "api", Spell: r.Intn(8)}, ConfOpts{Mask: r.Intn(16), How: "api", Spell: r.Intn(8)})
 			for k := 0; k < 4; k++ {
 				vs = append(vs, ConfOpts{Mask: 8 | r.Intn(8), Costs: costMaps[1+r.Intn(len(costMaps)-1)]})
 			}
